@@ -70,6 +70,14 @@ func c16Open(target, dir string, roots []cid.Cid, cfg lab.Cfg, faults []iofault.
 		s.mf.SetFaults(faults)
 		s.scr, err = storage.NewReadableWritable(s.mf, roots, cfg.Opts()...)
 		s.sc = s.scr
+	case "storage-rw-truncate-fails":
+		// the Truncate that would remove the partial bytes of a failed write fails in the same outage:
+		// the store either refuses to go on, or goes on correctly
+		s.mf = iofault.New(nil)
+		s.mf.TruncateFailsAfterFault = 1
+		s.mf.SetFaults(faults)
+		s.scr, err = storage.NewReadableWritable(s.mf, roots, cfg.Opts()...)
+		s.sc = s.scr
 	case "storage-rw-notrunc":
 		// a ReaderAt/WriterAt that cannot be truncated: partial bytes of a failed write cannot be removed
 		s.mf = iofault.New(nil)
@@ -491,6 +499,13 @@ func runC16(t *mon.T, raw json.RawMessage) {
 				runs++
 			}
 		}
+		// the retry of the failed call fails as well, at one of ITS writes, with bytes accepted (an outage
+		// that lasts): the second undo must do what the first did
+		for j := 1; j <= 3; j++ {
+			c16Run(t, d, dir, roots, content.Roots, content.Blocks, []iofault.Fault{{At: ord, Keep: l / 2}, {At: ord + j, Keep: 40}}, true)
+			runs++
+		}
+		t.Cover("retry-fails-too")
 		if d.Pairs {
 			for j := 0; j < 3; j++ {
 				o2 := ord + 1 + r.Intn(len(lens)+2)
@@ -505,7 +520,7 @@ func runC16(t *mon.T, raw json.RawMessage) {
 
 func genC16(g *mon.G) {
 	r := gen.Rand(g.Seed)
-	targets := []string{"storage-rw", "storage-stream", "deferred-stream", "blockstore", "blockstore-many", "deferred-path", "storage-rw-notrunc", "blockstore-resumed", "storage-rw-resumed"}
+	targets := []string{"storage-rw", "storage-stream", "deferred-stream", "blockstore", "blockstore-many", "deferred-path", "storage-rw-notrunc", "blockstore-resumed", "storage-rw-resumed", "storage-rw-truncate-fails"}
 	for i := 0; i < g.Pick(150, 1500); i++ {
 		tg := targets[i%len(targets)]
 		cfg := lab.Cfg{StoreID: r.Intn(2) == 0, Sorted: r.Intn(2) == 0}
